@@ -155,16 +155,26 @@ def literal_obligations(chk):
     def inv(I, path, env, k):
         cand = to_val(env.lookup(_outer_loop_target(I, func)))
         return [Q([IntS], lambda j: z3.Implies(z3.And(j >= 0, j < k), z3.Not(pyeq(vv(j), cand))), name="no-earlier-match")]
-    I.loop_specs[(func, 1)] = LoopSpec("values", lambda I, p, e, k: None, inv)
+    # two passes over the declared values per candidate (fix 4d8ae83): first a literal of the candidate's own class, then any equal
+    def inv_exact(I, path, env, k):
+        cand = to_val(env.lookup(_outer_loop_target(I, func)))
+        return [Q([IntS], lambda j: z3.Implies(z3.And(j >= 0, j < k), z3.Not(z3.And(cls_of(vv(j)) == cls_of(cand), pyeq(vv(j), cand)))),
+                  name="no-earlier-match-of-the-same-class")]
+    I.loop_specs[(func, 1)] = LoopSpec("values-of-the-same-class", lambda I, p, e, k: None, inv_exact)
+    I.loop_specs[(func, 2)] = LoopSpec("values", lambda I, p, e, k: None, inv)
     box = {}
 
     def mk(I, path):
         m = path.fresh("m", IntS)
         path.assume(z3.And(nv >= 0, m >= 0, m < nv))
         val = vv(m)                                       # the input *is* the m-th declared literal
-        # declared literals are pairwise distinct under == (typing de-duplicates Literal arguments) and == is reflexive
-        path.assume(Q([IntS, IntS], lambda i, j: z3.Implies(z3.And(i >= 0, i < nv, j >= 0, j < nv), pyeq(vv(i), vv(j)) == (i == j)),
-                      name="literals-pairwise-distinct"))
+        # typing de-duplicates Literal arguments by (class, value): two declared literals may be == (True and 1) as long as their
+        # classes differ; == is reflexive.  (An earlier version assumed pairwise distinctness under == alone - false for
+        # Literal[True, 1] - and so proved the clause for code that returned True for the input 1.)
+        path.assume(Q([IntS, IntS], lambda i, j: z3.Implies(z3.And(i >= 0, i < nv, j >= 0, j < nv, i != j),
+                                                           z3.Not(z3.And(pyeq(vv(i), vv(j)), cls_of(vv(i)) == cls_of(vv(j))))),
+                      name="literals-distinct-by-class-and-value"))
+        path.assume(Q([IntS], lambda i: pyeq(vv(i), vv(i)), trigger=vv, name="eq-reflexive"))
         values = SSeq(nv, lambda i: SV(vv(to_int(i))), "tuple")
         slf = rw.routine_self(I, UN, "LiteralUnmarshaller", {"t": SV(path.fresh("t")), "origin": SV(path.fresh("o")),
                                                               "values": values, "context": rw.Ctx(path.fresh("ctx")), "var": None})
